@@ -1,7 +1,479 @@
-//! C13: correspondence + oracle runs (sub-commands `c13` / `c13-*`).
+//! C13: simulation start-up barrier and exit status, on the real `run_internet`.
+//!
+//! A scenario (one op line `scn …`) describes machines built from harness protocols (slow
+//! initialisers that send frames after the barrier, sinks, shutdown requesters) optionally
+//! mixed with built-in protocols/applications (Udp/Ipv4/Pci/SendMessage/Capture, Forward+Arp).
+//! It runs on a paused-clock current_thread runtime (virtual time), every observable event is
+//! logged with a global sequence number, and three lines are emitted for the Lean model:
+//!   `barrier <size> <prog> <sched>`  -> the effect log the barrier model allows for that schedule
+//!   `status <timeout> <reqs>`        -> (time, status) `run_internet` must return
+use elvis::applications::{Capture, Forward, SendMessage};
+use elvis_core::{
+    message::Message,
+    network::{VerifFrameEventKind, VerifFramePlan},
+    new_machine_arc,
+    protocol::{DemuxError, StartError},
+    protocols::{
+        ipv4::{Ipv4, Ipv4Address, Recipient},
+        udp::Udp,
+        Arp, Endpoint, Endpoints, Pci,
+    },
+    run_internet, run_internet_with_timeout, Control, ExitStatus, IpTable, Machine, Network,
+    Protocol, Session, Shutdown,
+};
 use hcommon::*;
+use std::any::TypeId;
+use std::sync::{Arc, Mutex};
+use std::time::Duration;
+use tokio::sync::Barrier;
+use tokio::time::{sleep, Instant};
+
+#[derive(Clone, Debug)]
+enum Ev {
+    PreDone(usize),
+    Post(usize),
+    FrameSend,
+    SinkDemux,
+    Request(u64, ExitStatus),
+}
+
+struct Log {
+    t0: Instant,
+    events: Vec<(u64, Ev)>,
+}
+
+type SharedLog = Arc<Mutex<Log>>;
+
+fn now_ms(log: &SharedLog) -> u64 {
+    let l = log.lock().unwrap();
+    Instant::now().duration_since(l.t0).as_millis() as u64
+}
+fn record(log: &SharedLog, ev: Ev) {
+    let mut l = log.lock().unwrap();
+    let t = Instant::now().duration_since(l.t0).as_millis() as u64;
+    l.events.push((t, ev));
+}
+
+/// Slow initialiser: sleeps before the barrier (its one `pre` effect), then sends `posts`
+/// broadcast frames to the `Sink` protocols.
+struct Slow {
+    id: usize,
+    pre_delay: u64,
+    posts: u32,
+    gap: u64,
+    log: SharedLog,
+}
+
+#[async_trait::async_trait]
+impl Protocol for Slow {
+    async fn start(&self, _s: Shutdown, initialized: Arc<Barrier>, machine: Arc<Machine>) -> Result<(), StartError> {
+        if self.pre_delay > 0 {
+            sleep(Duration::from_millis(self.pre_delay)).await;
+        }
+        record(&self.log, Ev::PreDone(self.id));
+        initialized.wait().await;
+        let pci = machine.protocol::<Pci>().unwrap().open(0);
+        for k in 0..self.posts {
+            record(&self.log, Ev::Post(self.id));
+            let _ = pci.send_pci(Message::new(vec![self.id as u8, k as u8]), None, TypeId::of::<Sink>());
+            if self.gap > 0 {
+                sleep(Duration::from_millis(self.gap)).await;
+            } else {
+                tokio::task::yield_now().await;
+            }
+        }
+        Ok(())
+    }
+    fn demux(&self, _m: Message, _c: Arc<dyn Session>, _ctl: Control, _mc: Arc<Machine>) -> Result<(), DemuxError> {
+        Ok(())
+    }
+}
+
+struct Sink {
+    log: SharedLog,
+}
+
+#[async_trait::async_trait]
+impl Protocol for Sink {
+    async fn start(&self, _s: Shutdown, initialized: Arc<Barrier>, _m: Arc<Machine>) -> Result<(), StartError> {
+        initialized.wait().await;
+        Ok(())
+    }
+    fn demux(&self, _m: Message, _c: Arc<dyn Session>, _ctl: Control, _mc: Arc<Machine>) -> Result<(), DemuxError> {
+        record(&self.log, Ev::SinkDemux);
+        Ok(())
+    }
+}
+
+/// Requests shutdown with a status `at` ms after the barrier.
+struct Requester {
+    at: u64,
+    status: ExitStatus,
+    log: SharedLog,
+}
+
+#[async_trait::async_trait]
+impl Protocol for Requester {
+    async fn start(&self, shutdown: Shutdown, initialized: Arc<Barrier>, _m: Arc<Machine>) -> Result<(), StartError> {
+        initialized.wait().await;
+        let at = self.at;
+        let status = self.status.clone();
+        let log = self.log.clone();
+        tokio::spawn(async move {
+            sleep(Duration::from_millis(at)).await;
+            let t = now_ms(&log);
+            record(&log, Ev::Request(t, status.clone()));
+            shutdown.shut_down_with_status(status);
+        });
+        Ok(())
+    }
+    fn demux(&self, _m: Message, _c: Arc<dyn Session>, _ctl: Control, _mc: Arc<Machine>) -> Result<(), DemuxError> {
+        Ok(())
+    }
+}
+
+#[derive(Clone, Debug, Default)]
+struct Scenario {
+    timeout: Option<u64>,
+    slows: Vec<(u64, u32, u64)>,      // pre_delay, posts, gap
+    reqs: Vec<(u64, Option<u32>)>,    // at, Some(n)=Status(n) / None=Exited
+    builtin_pair: bool,               // Udp/Ipv4/Pci + SendMessage -> Capture
+    forward_arp: bool,                // Forward on a machine with Arp and a MAC-less route
+}
+
+fn status_str(s: &ExitStatus) -> String {
+    match s {
+        ExitStatus::Status(n) => format!("s{}", n),
+        ExitStatus::Exited => "exited".into(),
+        ExitStatus::TimedOut => "timedout".into(),
+    }
+}
+
+impl Scenario {
+    fn to_line(&self) -> String {
+        let t = self.timeout.map(|d| d.to_string()).unwrap_or("-".into());
+        let sl: Vec<String> = self.slows.iter().map(|(d, p, g)| format!("{}:{}:{}", d, p, g)).collect();
+        let rq: Vec<String> = self
+            .reqs
+            .iter()
+            .map(|(a, s)| format!("{}:{}", a, s.map(|n| format!("s{}", n)).unwrap_or("exited".into())))
+            .collect();
+        format!(
+            "scn timeout={} slows={} reqs={} builtin={} forward={}",
+            t,
+            if sl.is_empty() { "-".into() } else { sl.join(",") },
+            if rq.is_empty() { "-".into() } else { rq.join(",") },
+            self.builtin_pair as u8,
+            self.forward_arp as u8
+        )
+    }
+    fn parse(line: &str) -> Option<Scenario> {
+        let mut s = Scenario::default();
+        for w in line.split_whitespace().skip(1) {
+            let (k, v) = w.split_once('=')?;
+            match k {
+                "timeout" => s.timeout = if v == "-" { None } else { Some(v.parse().ok()?) },
+                "slows" if v != "-" => {
+                    for x in v.split(',') {
+                        let p: Vec<&str> = x.split(':').collect();
+                        s.slows.push((p[0].parse().ok()?, p[1].parse().ok()?, p[2].parse().ok()?));
+                    }
+                }
+                "reqs" if v != "-" => {
+                    for x in v.split(',') {
+                        let (a, st) = x.split_once(':')?;
+                        let st = if st == "exited" { None } else { Some(st[1..].parse().ok()?) };
+                        s.reqs.push((a.parse().ok()?, st));
+                    }
+                }
+                "builtin" => s.builtin_pair = v == "1",
+                "forward" => s.forward_arp = v == "1",
+                _ => {}
+            }
+        }
+        Some(s)
+    }
+}
+
+struct Outcome {
+    status: ExitStatus,
+    elapsed: u64,
+    events: Vec<(u64, Ev)>,
+    n_protocols: usize,
+}
+
+/// Run a scenario under a real-time watchdog: a run that does not return (e.g. a barrier that
+/// never releases on a paused clock) is an observable outcome, not a hang of the check.
+fn run_scenario(sc: &Scenario) -> Option<Outcome> {
+    let (tx, rx) = std::sync::mpsc::channel();
+    let sc2 = sc.clone();
+    std::thread::spawn(move || {
+        let _ = tx.send(run_scenario_inner(&sc2));
+    });
+    rx.recv_timeout(Duration::from_secs(20)).ok()
+}
+
+fn run_scenario_inner(sc: &Scenario) -> Outcome {
+    let rt = tokio::runtime::Builder::new_current_thread().enable_all().start_paused(true).build().unwrap();
+    rt.block_on(async {
+        let log: SharedLog = Arc::new(Mutex::new(Log { t0: Instant::now(), events: vec![] }));
+        let network = Network::basic();
+        {
+            let log = log.clone();
+            network.verif_set_hook(Some(Arc::new(move |ev| {
+                if ev.kind == VerifFrameEventKind::Send {
+                    record(&log, Ev::FrameSend);
+                }
+                VerifFramePlan::Deliver
+            })));
+        }
+        let mut machines: Vec<Arc<Machine>> = vec![];
+        for (i, (d, p, g)) in sc.slows.iter().enumerate() {
+            machines.push(new_machine_arc![
+                Pci::new([network.clone()]),
+                Slow { id: i, pre_delay: *d, posts: *p, gap: *g, log: log.clone() },
+                Sink { log: log.clone() },
+            ]);
+        }
+        for (at, st) in sc.reqs.iter() {
+            let status = match st {
+                Some(n) => ExitStatus::Status(*n),
+                None => ExitStatus::Exited,
+            };
+            machines.push(new_machine_arc![Requester { at: *at, status, log: log.clone() }]);
+        }
+        if sc.builtin_pair {
+            let endpoint = Endpoint { address: [123, 45, 67, 89].into(), port: 0xbeef };
+            let local: Ipv4Address = [127, 0, 0, 1].into();
+            let table: IpTable<Recipient> = [(local, Recipient::with_mac(0, 1))].into_iter().collect();
+            machines.push(new_machine_arc![
+                Udp::new(),
+                Ipv4::new(table),
+                Pci::new([network.clone()]),
+                SendMessage::new(vec![Message::new("Hello!"), Message::new("again")], endpoint),
+            ]);
+            machines.push(new_machine_arc![
+                Udp::new(),
+                Ipv4::new(Default::default()),
+                Pci::new([network.clone()]),
+                // expects more messages than are sent: never requests shutdown itself
+                Capture::new(endpoint, 100),
+            ]);
+        }
+        if sc.forward_arp {
+            let a: Ipv4Address = [10, 0, 0, 1].into();
+            let b: Ipv4Address = [10, 0, 0, 2].into();
+            let table: IpTable<Recipient> = [("0.0.0.0/0", Recipient::new(0, None))].into_iter().collect();
+            machines.push(new_machine_arc![
+                Udp::new(),
+                Ipv4::new(table.clone()),
+                Arp::new(),
+                Pci::new([network.clone()]),
+                Forward::new(Endpoints { local: Endpoint { address: a, port: 7 }, remote: Endpoint { address: b, port: 7 } }),
+            ]);
+            machines.push(new_machine_arc![
+                Udp::new(),
+                Ipv4::new(table),
+                Arp::new(),
+                Pci::new([network.clone()]),
+                Capture::new(Endpoint { address: b, port: 7 }, 100),
+            ]);
+        }
+        let n_protocols = machines.iter().map(|m| m.protocol_count()).sum();
+        log.lock().unwrap().t0 = Instant::now();
+        let t0 = Instant::now();
+        let status = match sc.timeout {
+            Some(d) => run_internet_with_timeout(&machines, Duration::from_millis(d)).await,
+            None => run_internet(&machines, None).await,
+        };
+        let elapsed = Instant::now().duration_since(t0).as_millis() as u64;
+        let events = log.lock().unwrap().events.clone();
+        network.verif_set_hook(None);
+        Outcome { status, elapsed, events, n_protocols }
+    })
+}
+
+fn gen(rng: &mut Rng) -> Scenario {
+    let mut s = Scenario::default();
+    let kind = rng.below(100);
+    let n_slow = if kind < 8 { 0 } else { rng.range(1, 5) as usize };
+    for _ in 0..n_slow {
+        s.slows.push((*rng.pick(&[0u64, 0, 1, 5, 40, 300, 2500]), rng.below(4) as u32, *rng.pick(&[0u64, 0, 1, 7])));
+    }
+    let max_pre = s.slows.iter().map(|x| x.0).max().unwrap_or(0);
+    let n_req = match rng.below(10) {
+        0 => 0,
+        1..=5 => 1,
+        6..=7 => rng.range(2, 6) as usize,
+        8 => rng.range(7, 16) as usize,
+        _ => rng.range(17, 24) as usize,
+    };
+    let same_instant = rng.chance(1, 2);
+    let base_at = *rng.pick(&[0u64, 1, 3, 50, 700, 4000]);
+    for i in 0..n_req {
+        let at = if same_instant { base_at } else { *rng.pick(&[0u64, 1, 2, 10, 50, 51, 700, 4000, 9000]) };
+        let st = if rng.chance(1, 8) { None } else { Some(100 + i as u32) };
+        s.reqs.push((at, st));
+    }
+    // timeouts: absent only if some request exists; never exactly at a request instant
+    let need_timeout = n_req == 0 || rng.chance(2, 3);
+    if need_timeout {
+        let mut d = *rng.pick(&[1u64, 20, 333, 1000, 2600, 6000, 20000]);
+        while s.reqs.iter().any(|r| r.0 + max_pre == d) {
+            d += 1;
+        }
+        s.timeout = Some(d);
+    }
+    s.builtin_pair = rng.chance(1, 3);
+    s
+}
+
+fn exec(line: &str, out: &mut Out) {
+    let Some(sc) = Scenario::parse(line) else { return out.line(line, "bad-op") };
+    let Some(o) = run_scenario(&sc) else {
+        out.line(line, "scn-no-return");
+        out.fail(&format!("`{}`: the run did not return within 20 s of real time on a paused clock (start-up never completed or the run never ended)", line), "no-return");
+        return;
+    };
+    out.line(line, "scn");
+    out.count(&format!("ret.{}", status_str(&o.status).trim_start_matches('s').chars().all(|c| c.is_ascii_digit()).then(|| "status").unwrap_or(match o.status { ExitStatus::Exited => "exited", _ => "timedout" })));
+
+    // ---------- barrier ----------
+    let n_slow = sc.slows.len();
+    let mut pre_done = 0usize;
+    let mut sched: Vec<usize> = vec![];
+    let mut real_log: Vec<String> = vec![];
+    let mut early: Option<String> = None;
+    for (_, ev) in o.events.iter() {
+        match ev {
+            Ev::PreDone(i) => {
+                pre_done += 1;
+                sched.push(*i); // the pre effect
+                sched.push(*i); // arrival at the barrier
+                real_log.push(format!("p{}", i));
+            }
+            Ev::Post(i) => {
+                if pre_done < n_slow && early.is_none() {
+                    early = Some(format!("post effect of routine {} before {} of {} initialisations finished", i, n_slow - pre_done, n_slow));
+                }
+                sched.push(*i);
+                real_log.push(format!("q{}", i));
+            }
+            Ev::FrameSend => {
+                if pre_done < n_slow && early.is_none() {
+                    early = Some(format!("a frame was put on the network while {} of {} harness protocols were still initialising", n_slow - pre_done, n_slow));
+                }
+            }
+            Ev::SinkDemux => {
+                if pre_done < n_slow && early.is_none() {
+                    early = Some("an application received a frame before initialisation finished".into());
+                }
+            }
+            Ev::Request(..) => {}
+        }
+    }
+    if let Some(e) = early {
+        let ident = if sc.forward_arp { "frame-before-barrier forward+arp" } else { "frame-before-barrier" };
+        out.fail(&format!("{} in `{}`", e, line), ident);
+    }
+    if n_slow > 0 {
+        let prog: Vec<String> = sc.slows.iter().map(|(_, p, _)| format!("1:{}", p)).collect();
+        let sch: Vec<String> = sched.iter().map(|x| x.to_string()).collect();
+        out.line(
+            &format!("barrier {} {} {}", n_slow, prog.join(","), if sch.is_empty() { "-".into() } else { sch.join(",") }),
+            &format!("log {}", if real_log.is_empty() { "-".into() } else { real_log.join(" ") }),
+        );
+    }
+
+    // ---------- status ----------
+    let reqs: Vec<(u64, ExitStatus)> = o.events.iter().filter_map(|(_, e)| if let Ev::Request(t, s) = e { Some((*t, s.clone())) } else { None }).collect();
+    // requests that really were issued (those after the return never happened)
+    let rq: Vec<String> = reqs.iter().map(|(t, s)| format!("{}:{}", t, status_str(s))).collect();
+    // planned but not yet issued requests (the run returned first) are appended with their planned
+    // time so that the model sees the complete request plan
+    let max_pre = sc.slows.iter().map(|x| x.0).max().unwrap_or(0);
+    let mut planned: Vec<(u64, String)> = vec![];
+    if reqs.len() < sc.reqs.len() {
+        let mut pl: Vec<(u64, String)> = sc
+            .reqs
+            .iter()
+            .map(|(a, s)| (a + max_pre, s.map(|n| format!("s{}", n)).unwrap_or("exited".into())))
+            .collect();
+        pl.sort_by_key(|x| x.0);
+        let last_t = reqs.last().map(|x| x.0).unwrap_or(0);
+        planned = pl.into_iter().filter(|x| x.0 > last_t).collect();
+    }
+    let mut all = rq.clone();
+    all.extend(planned.iter().map(|(t, s)| format!("{}:{}", t, s)));
+    out.line(
+        &format!("status {} {}", sc.timeout.map(|d| d.to_string()).unwrap_or("-".into()), if all.is_empty() { "-".into() } else { all.join(",") }),
+        &format!("ret {} {}", o.elapsed, status_str(&o.status)),
+    );
+    // oracle: first request before the timeout wins, else TimedOut; bounded return time
+    let mut timeline: Vec<(u64, String)> = reqs.iter().map(|(t, s)| (*t, status_str(s))).collect();
+    timeline.extend(planned.iter().cloned());
+    let first = timeline.first().cloned();
+    let expected: Option<String> = match (first.clone(), sc.timeout) {
+        (Some((t, s)), Some(d)) if t < d => Some(s),
+        (Some((_, s)), None) => Some(s),
+        (_, Some(_)) => Some("timedout".into()),
+        (None, None) => None,
+    };
+    if let Some(exp) = expected {
+        let got = status_str(&o.status);
+        if got != exp {
+            let burst = first.as_ref().map(|f| timeline.iter().filter(|x| x.0 == f.0).count()).unwrap_or(0);
+            let ident = if burst > 16 { "status-not-first burst>16" } else { "status-not-first" };
+            out.fail(&format!("`{}` returned {} but the first shutdown request (or the timeout) prescribes {} (first burst of {} requests)", line, got, exp, burst), ident);
+        }
+    }
+    if let Some(d) = sc.timeout {
+        if o.elapsed > d + 1000 {
+            out.fail(&format!("`{}` returned after {} ms of simulated time, later than timeout {} + 1000", line, o.elapsed, d), "late-return");
+        }
+    }
+    out.count(&format!("protocols.{}", o.n_protocols.min(20)));
+    out.count(&format!("reqs.{}", if sc.reqs.len() > 16 { ">16".to_string() } else { sc.reqs.len().to_string() }));
+    if n_slow >= 2 && sc.slows.iter().any(|x| x.1 > 0) && !sc.reqs.is_empty() {
+        out.mark_nontrivial();
+    }
+}
 
 pub fn run(args: &Args) {
-    eprintln!("hfull: {} not implemented yet", args.prop);
-    std::process::exit(2);
+    let mut out = Out::new(&args.out);
+    let rule = "scenarios: 0..5 slow-initialising harness machines (sleep before the barrier, 0..3 broadcast frames after it) + 0..23 shutdown requesters (distinct statuses, same-instant bursts incl. > 16) + optional built-in Udp/Ipv4/Pci/SendMessage/Capture pair, optional timeout; paused-clock current_thread runtime; non-trivial = >= 2 slow machines, some post-barrier frame and >= 1 requester; distinct = hash of the scenario line";
+    if let Some(rp) = &args.replay {
+        out.begin_case(0);
+        out.mark_nontrivial();
+        for l in read_ops(rp) {
+            if l.starts_with("scn ") {
+                exec(&l, &mut out);
+            }
+        }
+        out.end_case();
+        out.finish(rule);
+        return;
+    }
+    let mut rng = Rng::new(args.seed);
+    // fixed scenarios first: empty machine set; Forward with ARP (known finding F-C13-2)
+    let fixed = [
+        "scn timeout=50 slows=- reqs=- builtin=0 forward=0".to_string(),
+        "scn timeout=500 slows=300:1:0 reqs=- builtin=0 forward=1".to_string(),
+    ];
+    let mut c = 0;
+    for f in fixed.iter() {
+        out.begin_case(c);
+        exec(f, &mut out);
+        out.end_case();
+        c += 1;
+    }
+    for _ in 0..args.cases {
+        let mut r = rng.fork();
+        let sc = gen(&mut r);
+        out.begin_case(c);
+        exec(&sc.to_line(), &mut out);
+        out.end_case();
+        c += 1;
+    }
+    out.finish(rule);
 }
